@@ -1115,6 +1115,11 @@ func ruleClientRequestShape(p *Prog, r *Out) {
 					endStream = squash(p.text(cl.Args[0])) == "!hasBody"
 				case "(*Headers).SetEndHeaders":
 					endHeaders = p.text(cl.Args[0]) == "true"
+				case "(*Conn).writeHeaderBlock":
+					// END_HEADERS is set by the emitter, on the last frame of the block (header-block-emitters)
+					if ok, _ := p.headerBlockWriterOK(hbClient); ok {
+						endHeaders = true
+					}
 				case "atomic.StoreUint32":
 					if squash(p.text(cl.Args[0])) == "&c.nextID" && p.linOf(cl.Args[1], nil).eq(Lin{T: map[string]int64{"id": 1}, C: 2}) {
 						nextOK = true
@@ -1139,6 +1144,13 @@ func ruleClientRequestShape(p *Prog, r *Out) {
 		}
 	}
 	c.expr("request has a body iff streamed or non-empty", hasBody, fdeDomain{[]string{"bodyStream", "len(req.Body())"}, [][]int64{{0, 1}, seq(0, 3)}}, nil, func(e fdeEnv) int64 { return b2i(e["bodyStream"] != 0 || e["len(req.Body())"] != 0) }, "bodyStream || len(body) != 0", "a one-octet body must be sent, and an empty one must end the stream on HEADERS")
+	inspectCalls(wr.Body, func(cl *ast.CallExpr) {
+		if p.calleeOf(cl) == "(*Conn).writeHeaderBlock" {
+			if ok, _ := p.headerBlockWriterOK(hbClient); ok {
+				endHeaders = true
+			}
+		}
+	})
 	r.check(endStream && endHeaders, "HEADERS ends the stream iff there is no body", c.pos, "SetEndStream(!hasBody); SetEndHeaders(true)", "the request's HEADERS frame no longer carries END_STREAM exactly when there is no body (and END_HEADERS always)")
 	r.check(nextOK && limitOK, "stream ids advance by two and stop at 2^31-1", c.pos, "id > maxStreamID -> error; nextID = id+2", "the client no longer takes stream ids from nextID in steps of two, refusing to go past 2^31-1")
 	r.check(slotIdx > writeErrIdx && writeErrIdx >= 0, "stream slot taken only after the request was written", c.pos, "if err != nil { ... return err }; openStreams++", "the client counts a stream as open before (or without) knowing that its HEADERS were written: a failed write leaks a slot")
@@ -1925,6 +1937,9 @@ func ruleServerLoopShape(p *Prog, r *Out) {
 				if as, ok := s.(*ast.AssignStmt); ok && squash(p.text(as.Lhs[0])) == "sc.lastID" && squash(p.text(as.Rhs[0])) == "fr.Stream()" {
 					last = true
 				}
+				if squash(p.text(s)) == "atomic.StoreUint32(&sc.lastID,fr.Stream())" {
+					last = true
+				}
 			}
 			if inc || last {
 				take = inc && last
@@ -1966,7 +1981,7 @@ func ruleServerLoopShape(p *Prog, r *Out) {
 			if ifs, isIf := s.(*ast.IfStmt); isIf {
 				if cmp, okc := p.canonCmp(ifs.Cond, nil); okc && cmp.Op == "ne" && cmp.L.eq(Lin{T: map[string]int64{"strm": 1}}) {
 					inspectCalls(ifs.Body, func(cl *ast.CallExpr) {
-						if p.calleeOf(cl) == "atomic.StoreUint32" && squash(p.text(cl.Args[0])) == "&sc.closeRef" && squash(p.text(cl.Args[1])) == "sc.lastID" {
+						if p.calleeOf(cl) == "atomic.StoreUint32" && squash(p.text(cl.Args[0])) == "&sc.closeRef" && (squash(p.text(cl.Args[1])) == "sc.lastID" || (squash(p.text(cl.Args[1])) == "last" && hasStmt(p, wg.Body.List, "last:=atomic.LoadUint32(&sc.lastID)"))) {
 							ok = true
 						}
 					})
@@ -2124,6 +2139,11 @@ func ruleServerLoopShape(p *Prog, r *Out) {
 					attached = true
 				case "sc.write(fr)":
 					queued = true
+				case "sc.writeHeaderBlock(fr,h)":
+					// END_HEADERS is set by the emitter, on the last frame of the block (header-block-emitters)
+					if ok, _ := p.headerBlockWriterOK(hbServer); ok {
+						queued, flags = true, true
+					}
 				}
 			}
 			if ifs, ok := s.(*ast.IfStmt); ok && strings.Contains(p.text(ifs.Cond), "IsBodyStream()") && ifs.Else != nil {
